@@ -14,6 +14,10 @@ operators, exact integer aggregators) is executed
   (e) through orchestrate.run_pipeline_interleaved, in process     E3
 
 and every run is compared with c16lib.reference (plain Python) and with (a).
+Scenario (f) (vlib/c03fault.py) runs pipelines in which the update of one aggregate
+fails on one batch, with ignore_error off and on, fused / chained / threaded, and
+demands that every strategy ends the same way (raised | completed with equal result)
+as the fused single-threaded run.
 Chunks are single-engine (a child interpreter either installs the scheduler
 shims into iter_utils or runs real threads, never both).
 """
@@ -38,7 +42,14 @@ RULE = (
     '(shared iterator) x schedule (seed, random walk | PCT) or x seeded real-thread delays; (c) random split '
     'into named stages, fluent or piecewise-chained, run by make() and stage by stage over named_transforms(); '
     '(d) k = 1-7 shards by make(shard=) or a sharded source, merge_states + get_result, strict counts; '
-    '(e) run_pipeline_interleaved with buffer sizes 0-3). Non-trivial = the strategy differs from the reference '
+    '(e) run_pipeline_interleaved with buffer sizes 0-3; (f) "an aggregation fails": dict-batch pipelines '
+    '(0-2 assign / filter operators, 1-3 exact aggregates on random columns with 0-2 column-adding assigns '
+    'between and behind them, 1-12 batches) in which the update of one random aggregate raises a random '
+    'exception type on one random batch (or none), run with ignore_error off and on as ONE fused stage '
+    '(aggregate().add_aggregate()), the same with num_threads 1-3, as 2 random chains of named stages, as '
+    'such a chain with num_threads on random stages, and periodically with every element a stage of its own; '
+    'every run is compared with the fused single-threaded run of the same ignore_error flag: same outcome '
+    'class (raised | completed) and, when completed, same batches and aggregates). Non-trivial = the strategy differs from the reference '
     'in threads / stages / shards / runner and the dataset has >= 2 elements; distinct = hash of (spec, '
     'strategy, layout, k | buffers) + schedule-trace hash')
 ASSUMPTIONS = [
@@ -48,6 +59,7 @@ ASSUMPTIONS = [
     'real-thread runs (b native, e) that do not complete within 60 s (typical: milliseconds) are retried once; two consecutive watchdog expiries of the same case are reported as a hang, a single one is inconclusive',
     'in the interleaved runner the aggregate of a stage is read from that stage\'s result_queue.returned; only the last stage must not carry any other returned value',
     'strategy (d) uses shardable sources only (SequenceDataSource: contiguous shards, ShardedIterable: round-robin shards)',
+    'scenario (f): every operator behind the first aggregation only ADDS a column (assign), filters stand in front of the first aggregation, so every chain of named stages has a one-stage twin (aggregate().add_aggregate()) that computes the same thing; the failing aggregate raises from update_state (ValueError / TypeError / RuntimeError / KeyError / ZeroDivisionError); only the outcome class (raised | completed) and the result of completed runs are compared, not the exception type and not the batches delivered before an error; fault-free runs must equal the plain-Python model; what a pipeline should do with a failing aggregation under ignore_error is NOT prescribed (raising and skipping the batch are both accepted as long as every strategy does the same)',
 ]
 REQUIRED = [
     'strategy_a', 'strategy_b_sched', 'strategy_b_native', 'strategy_c', 'strategy_c_named',
@@ -57,6 +69,11 @@ REQUIRED = [
     'shared_iterator_runs', 'worker_threads', 'shim_futures_installed', 'fuse_by_chain_layouts',
     'two_agg_stage_specs', 'strategy_d_threaded', 'shard_without_source_checks', 'shard_of_sharded_source_checks', 'sliced_merged_results_compared',
     'sliced_shards_with_different_key_sets',
+    'fault_cases', 'fault_reference_runs', 'fault_free_model_checks', 'fault_runs_fused',
+    'fault_runs_chained', 'fault_runs_threaded', 'fault_outcomes_compared',
+    'fault_results_compared', 'fault_both_raised', 'fault_class_no_fault',
+    'fault_class_fault_in_final_stage', 'fault_class_fault_in_final_stage_ignore_error',
+    'fault_class_fault_in_non_final_stage', 'fault_class_fault_in_non_final_stage_ignore_error',
 ]
 CHUNK_TIMEOUT_S = {'quick': 300, 'thorough': 3000}
 
@@ -136,7 +153,12 @@ def plan(tier, seed):
   out = []
   for i, kind in enumerate(kinds):
     out.append(dict(sizes[kind], chunk=i, mode=kind, rseed=seed))
-  return out
+  # (f) first: short chunks, so that they never form the tail of the run (their chunk
+  # numbers do not shift those of the other modes, whose cases stay what they were).
+  n_fault = 4 if tier == 'quick' else 16
+  fault = [{'n_pipe': 120 if tier == 'quick' else 1200, 'chunk': 1000 + j, 'mode': 'fault',
+            'rseed': seed} for j in range(n_fault)]
+  return fault + out
 
 
 # -- oracle -----------------------------------------------------------------------
@@ -680,7 +702,176 @@ def check_shard_of_sharded_source(ctx, kind, n, own, k):
                   mechanism=K_OWN_SHARD if sorted(got) == whole else 'd:shard-of-sharded-source:differs')
 
 
+# -- (f) an aggregation fails: the strategies agree on the outcome ---------------------
+
+K_TRUNC = 'chained-upstream-aggregation-error-truncates-run-under-ignore-error'
+FAULT_WITNESSES_PER_CLASS = 3
+
+
+def _fviol(ctx, kind, case, detail, mechanism):
+  """Counts every violation; keeps a few literal witnesses per class and chunk."""
+  ctx.count('viol:' + mechanism)
+  seen = ctx.__dict__.setdefault('_c03_fault_seen', {})
+  seen[(kind, mechanism)] = seen.get((kind, mechanism), 0) + 1
+  if seen[(kind, mechanism)] <= FAULT_WITNESSES_PER_CLASS:
+    ctx.violation(kind, case, detail, mechanism=mechanism)
+
+
+def _fault_run(ctx, case, fspec, layout, ie, tag):
+  from vlib import c03fault as F
+  if any(layout['threads']):
+    return _guarded(ctx, case, lambda: F.run(fspec, layout, ie), tag)
+  try:
+    return F.run(fspec, layout, ie)
+  except Exception as e:  # pylint: disable=broad-exception-caught
+    # F.run reports what the pipeline raises while it RUNS; this is building it.
+    ctx.violation('build_raised', case, {'error': f'{type(e).__name__}: {str(e)[:300]}'},
+                  mechanism=f'{tag}:build-raises:{type(e).__name__}')
+    return None
+
+
+def _short(res):
+  if res is None:
+    return None
+  out = {k: v for k, v in res.items() if k != 'outs'}
+  out['n_outs'] = len(res['outs'])
+  return out
+
+
+def check_fault_case(ctx, case, ref=None):
+  """One (pipeline with an optionally failing aggregate, layout, ignore_error) run
+  against its fused single-threaded twin: same outcome class (raised | completed)
+  and, when both completed, the same batches and aggregates. Fault-free cases are
+  also compared with the plain-Python model."""
+  from vlib import c03fault as F
+  fspec, layout, ie = case['fspec'], case['layout'], case['ie']
+  lcls, fcls = F.layout_class(layout), F.fault_class(fspec, layout)
+  tag = f'f:{lcls}:{fcls}:ignore_error={int(ie)}'
+  mdl = F.model(fspec)
+  full = collections.Counter(F.canon_batch(o) for o in mdl['outs'])
+  if ref is None:
+    ref = run_fault_reference(ctx, fspec, ie, mdl)
+    if ref is None:
+      return
+  res = _fault_run(ctx, case, fspec, layout, ie, tag)
+  ctx.count('fault_cases')
+  ctx.count('fault_runs_' + layout['kind'])
+  if any(layout['threads']):
+    ctx.count('fault_runs_threaded')
+  ctx.count('fault_class_' + fcls.replace('-', '_') + ('_ignore_error' if ie else ''))
+  ctx.case(('fault', fspec, layout, ie), len(mdl['outs']) >= 2)
+  if res is None:
+    return
+  ctx.count('fault_outcomes_compared')
+  got = collections.Counter(res['outs'])
+  if res['cls'] != ref['cls']:
+    mech = f'{tag}:{res["cls"]}-but-fused-twin-{ref["cls"]}'
+    if (ie and fcls == 'fault-in-non-final-stage' and layout['kind'] == 'chained'
+        and res['cls'] == 'completed'):
+      # Input class of the audited defect: ignore_error, the failing aggregate has a
+      # stage downstream. Signature: the run ends normally, holds nothing but
+      # batches of the dataset, lacks the refused batch (single-threaded: it is
+      # exactly the batches in front of it), and the batches behind it are gone.
+      j = fspec['fault']['batch']
+      bad = F.canon_batch(mdl['outs'][j])
+      before = [F.canon_batch(o) for o in mdl['outs'][:j]]
+      if any(layout['threads']):
+        sig = not (got - full) and bad not in got and sum(got.values()) < sum(full.values())
+      else:
+        sig = res['outs'] == before
+      if sig:
+        mech = K_TRUNC
+    _fviol(ctx, 'outcome_differs_between_strategies', case,
+           {'this_run': _short(res), 'fused_single_threaded_twin': _short(ref),
+            'batches_of_the_dataset': sum(full.values()),
+            'delivered': len(res['outs']),
+            'failing_batch_index': (fspec.get('fault') or {}).get('batch')}, mech)
+    return
+  if res['cls'] == 'raised':
+    ctx.count('fault_both_raised')
+    if res['exc'] != ref['exc']:
+      ctx.observe('fault_exception_type_differs', f'{res["exc"]} vs fused {ref["exc"]}')
+    return
+  ctx.count('fault_results_compared')
+  ctx.count('batches_compared', len(res['outs']))
+  if got != collections.Counter(ref['outs']):
+    _fviol(ctx, 'output_multiset_differs', case,
+           {'missing': sorted((collections.Counter(ref['outs']) - got).elements())[:4],
+            'unexpected': sorted((got - collections.Counter(ref['outs'])).elements())[:4]},
+           f'{tag}:outputs-differ')
+  elif res['agg'] != ref['agg'] or res['ret'] != ref['agg']:
+    _fviol(ctx, 'aggregate_differs', case,
+           {'agg': res['agg'], 'returned': res['ret'], 'fused_twin': ref['agg']},
+           f'{tag}:aggregate-differs')
+
+
+def run_fault_reference(ctx, fspec, ie, mdl=None):
+  """The fused single-threaded run; fault-free: equal to the plain-Python model."""
+  from vlib import c03fault as F
+  mdl = mdl or F.model(fspec)
+  layout = F.fused_layout(0)
+  case = {'strategy': 'fault', 'fspec': fspec, 'layout': layout, 'ie': ie}
+  fcls = F.fault_class(fspec, layout)
+  tag = f'f:fused-single-threaded:{fcls}:ignore_error={int(ie)}'
+  ref = _fault_run(ctx, case, fspec, layout, ie, tag)
+  ctx.count('fault_reference_runs')
+  if ref is None:
+    return None
+  if not fspec.get('fault'):
+    ctx.count('fault_free_model_checks')
+    want = [F.canon_batch(o) for o in mdl['outs']]
+    if ref['cls'] != 'completed':
+      _fviol(ctx, 'run_raised', case, _short(ref), f'{tag}:raises:{ref.get("exc")}')
+      return None
+    if ref['outs'] != want or ref['agg'] != mdl['aggs'] or ref['ret'] != mdl['aggs']:
+      _fviol(ctx, 'differs_from_model', case,
+             {'got': _short(ref), 'want_aggs': mdl['aggs'], 'want_batches': len(want)},
+             f'{tag}:differs-from-model')
+      return None
+  return ref
+
+
+def chunk_fault(ctx, spec):
+  from vlib import c03fault as F
+  sys.setswitchinterval(1e-5)
+  rng = random.Random(spec['rseed'] * 1000003 + spec['chunk'] * 13 + 5)
+  runs = 0
+  for i in range(spec['n_pipe']):
+    fspec = F.gen_fspec(rng)
+    if i % 8 == 0 and not fspec.get('fault'):
+      # every chunk holds the triggering input class, whatever the seed
+      outs = F.model(fspec)['outs']
+      if outs:
+        fspec['fault'] = {'agg': F.agg_keys(fspec)[0], 'batch': rng.randrange(len(outs)),
+                          'exc': rng.choice(F.EXC_NAMES)}
+    layouts = [F.fused_layout(rng.randint(1, 3))]
+    for p_split in (0.3, 0.7):
+      lay = F.gen_chained_layout(rng, fspec, p_split)
+      layouts.append(lay)
+    layouts.append(F.with_threads(rng, rng.choice(layouts[1:])))
+    if i % 8 == 0:
+      # every element is a named stage of its own
+      layouts.append({'kind': 'chained', 'threads': [0] * (len(fspec['els']) + 1),
+                      'stages': list(range(len(fspec['els']) + 1))})
+    for ie in (False, True):
+      ref = run_fault_reference(ctx, fspec, ie)
+      if ref is None:
+        continue
+      for layout in layouts:
+        case = {'strategy': 'fault', 'fspec': fspec, 'layout': layout, 'ie': ie}
+        check_fault_case(ctx, case, ref)
+        runs += 1
+    if len(ctx.samples) < 2 and fspec.get('fault'):
+      ctx.sample({'fspec': fspec, 'layouts': layouts[:3]})
+    if runs > 200:
+      gc.collect()
+      runs = 0
+
+
 def run_chunk(ctx, spec):
+  if spec['mode'] == 'fault':
+    chunk_fault(ctx, spec)
+    return
   if spec['mode'] == 'e1':
     rng0 = random.Random(spec['rseed'] * 7 + spec.get('chunk', 0))
     for _ in range(4):
@@ -694,6 +885,10 @@ def run_chunk(ctx, spec):
 
 def run_case(ctx, case):
   from vlib import c03work as w
+  if case.get('strategy') == 'fault':
+    sys.setswitchinterval(1e-5)
+    check_fault_case(ctx, case)
+    return
   spec = case['spec']
   want = w.expected(spec)
   strategy = case['strategy']
